@@ -622,7 +622,7 @@ impl<'a, F: Float, K: 'a + Permutable<F>> SolverState<'a, F, K> {
             if self.targets[i] {
                 self.gradient[i] > gmax2
             } else {
-                -self.gradient[i] > gmax1
+                self.gradient[i] > gmax1
             }
         } else {
             false
@@ -683,7 +683,9 @@ impl<'a, F: Float, K: 'a + Permutable<F>> SolverState<'a, F, K> {
     }
 
     pub fn do_shrinking_nu(&mut self) {
-        let (gmax1, gmax2, gmax3, gmax4) = self.max_violating_pair_nu();
+        // `max_violating_pair_nu` returns (y=+1 up, y=-1 low, y=+1 low, y=-1 up); below, as in
+        // `should_shrunk_nu`, gmax1/gmax2 belong to the positive and gmax3/gmax4 to the negative class
+        let (gmax1, gmax3, gmax2, gmax4) = self.max_violating_pair_nu();
         let (gmax1, gmax2, gmax3, gmax4) = (gmax1.0, gmax2.0, gmax3.0, gmax4.0);
 
         // work on all variables when 10*eps is reached
